@@ -735,6 +735,10 @@ def run_suite(seed, tier):
                 except ValueError as e:
                     S.diverge(family, 'real code raised while adapting', 'build %d' % j, 'no exception', repr(e)[:300])
                     continue
+                except (AttributeError, TypeError, KeyError, AssertionError) as e:
+                    S.diverge(family, 'the real object does not have the structure the model describes',
+                              'build %d' % j, 'model structure', repr(e)[:300])
+                    continue
                 ex = (j == 1) if quick else ('full' if j in (1, 3) else j < 8)
                 try:
                     run_instance(S, family, p0, names, doms, kind_, exhaustive=ex)
